@@ -396,6 +396,35 @@ def build() -> Check:
           "completion has meanwhile been merged into ExecutionState.operations (it arrived in a checkpoint response while a sibling was still running) stays parked, "
           "the invocation answers PENDING although it holds the awaited result and nothing is registered with the backend any more")
 
+    # R3 who may take a suspension: a SuspendExecution / TimedSuspendExecution raised by an operation has to travel to one of two places - the handler
+    # wrapper (answers PENDING) or the done-callback of a map/parallel branch (parks the branch, hands it to the resume timer, feeds the suspend verdict).
+    # Any other handler that takes it and does not pass it on keeps the branch RUNNING: the verdict can never be "all parked", and a handler that runs the
+    # branch again in place spins on stale state without ever blocking (r6_C07: "resume at once" implemented as a loop around child_handler).
+    ALLOWED_SUSP = {"durable_execution.<locals>.wrapper": "maps the suspension to PENDING", "ConcurrentExecutor._on_task_complete": "parks the branch"}
+    n_sh = 0
+    for fi in prog.functions.values():
+        if isinstance(fi.node, ast.Lambda):
+            continue
+        for h in [x for x in walk_shallow(fi.node) if isinstance(x, ast.ExceptHandler)]:
+            if h.type is None:
+                continue
+            tnames = [ast.unparse(x) for x in (h.type.elts if isinstance(h.type, ast.Tuple) else [h.type])]
+            if not any(tn.split(".")[-1] in ("SuspendExecution", "TimedSuspendExecution") for tn in tnames):
+                continue
+            n_sh += 1
+            passes_on = bool(h.body) and isinstance(h.body[-1], ast.Raise) and h.body[-1].exc is None and not any(
+                isinstance(x, (ast.Return, ast.Continue, ast.Break)) for b in h.body for x in ast.walk(b))
+            always_raises = bool(h.body) and isinstance(h.body[-1], ast.Raise)
+            qual = fi.fq.split(".", 1)[-1] if "." in fi.fq else fi.fq
+            allowed = any(qual.endswith(a) for a in ALLOWED_SUSP)
+            conditional = any(isinstance(x, ast.Raise) for b in h.body for x in ast.walk(b)) and not always_raises
+            ck.ob("R3.suspension-reaches-its-handler", fn_construct(fi), allowed or passes_on,
+                  f"`except {' | '.join(tnames)}` (line {h.lineno}) takes a suspension and " + ("passes it on only conditionally" if conditional else "does not pass it on")
+                  + ": the branch is neither parked nor handed to the resume timer - it stays RUNNING (the suspend verdict can never be reached) and, if the handler "
+                  "runs the operation again, it spins on the same recorded state without a backend call or a blocking wait", where=f"line {h.lineno}",
+                  cell=f"{' | '.join(tnames)}")
+    ck.floor("suspension_handlers", n_sh, 4)
+
     # R5 timer -----------------------------------------------------------------------------------------
     ts = prog.cls("concurrency.executor", "TimerScheduler")
     tl = ts.methods.get("_timer_loop")
@@ -418,8 +447,13 @@ def build() -> Check:
         binds = [n for n in g.nodes if isinstance(n.stmt, (ast.Assign, ast.AnnAssign)) and n.kind != "header" and n.stmt.value is not None
                  and any(isinstance(t_, ast.Name) and t_.id == arg.id for t_ in ([n.stmt.target] if isinstance(n.stmt, ast.AnnAssign) else n.stmt.targets))]
         real = [n for n in binds if not (isinstance(n.stmt.value, ast.Constant) and n.stmt.value.value is None)]
-        tested = any(n.kind == "header" and isinstance(n.stmt, ast.If) and ast.unparse(n.stmt.test).replace(" ", "") in (f"{arg.id}isnotNone", arg.id)
-                     and g.dominates(n.idx, r.idx) for n in g.nodes)
+        def establishes(test):
+            """the test being true implies `arg is not None`: the test itself, or a conjunction that contains it"""
+            if ast.unparse(test).replace(" ", "") in (f"{arg.id}isnotNone", arg.id):
+                return True
+            return isinstance(test, ast.BoolOp) and isinstance(test.op, ast.And) and any(establishes(v) for v in test.values)
+
+        tested = any(n.kind == "header" and isinstance(n.stmt, ast.If) and establishes(n.stmt.test) and g.dominates(n.idx, r.idx) for n in g.nodes)
         return bool(real) and tested and all(any(g.dominates(x.idx, b.idx) for x in sites) for b in real)
 
     for r in resub:
